@@ -320,8 +320,21 @@ class Interp:
             return
         spec = self.loop_spec(s)
         if spec is None:
+            if self._only_builds_text(s, env):
+                # e.g. assembling an error message: no effect on the modelled state
+                self.ctx.dropped.add("loops that only append to message strings: skipped")
+                return
             raise PathAbort("for loop over a symbolic range without invariant", s.lineno)
         self.loop_by_invariant(s, env, spec, kind="for", iterable=it)
+
+    def _only_builds_text(self, s, env):
+        for st in s.body:
+            if isinstance(st, ast.AugAssign) and isinstance(st.target, ast.Name) and isinstance(env.get(st.target.id), (str, Opaque)):
+                continue
+            if isinstance(st, ast.Expr) and isinstance(st.value, ast.Call) and getattr(st.value.func, "id", None) == "print":
+                continue
+            return False
+        return bool(s.body)
 
     def loop_spec(self, s):
         q = None
